@@ -292,12 +292,21 @@ func (p *c06) Init(tier string, seed int64) {
 	// --- loops: sequence kind x length x form ---
 	for _, sk := range c06SeqKinds() {
 		for n := 0; n <= sk.maxN; n++ {
-			for form := 0; form < 6; form++ {
+			for form := 0; form < 7; form++ {
 				sk, n, form := sk, n, form
 				p.enum = append(p.enum, func() (*Program, string) {
 					seq, ctx := sk.build(n)
 					f := &gen.NFor{Val: "v", Seq: seq}
 					switch form {
+					case 6:
+						// the loop stands in a template that is included (then embedded) from inside a loop of the
+						// host: the host's loop is the parent of this one
+						f.Body = loopProbe("", "v", true)
+						outer := &gen.NFor{Key: "ok", Val: "o", Seq: &gen.EArr{Els: []gen.Expr{str("x"), str("y")}}, Body: []gen.Node{tx("["), pr(nm("o")), &gen.NInclude{Tpl: str("inc")}, tx("/"), &gen.NEmbed{Tpl: str("inc")}, tx("]")}}
+						prog := mkProg(ctx, outer, tx("|"), &gen.NInclude{Tpl: str("inc2")})
+						prog.Templates["inc"] = tpl("inc", tx("<"), f, tx(">"))
+						prog.Templates["inc2"] = tpl("inc2", tx("<"), &gen.NFor{Val: "v", Seq: seq, Body: loopProbe("", "v", false)}, tx(">"))
+						return prog, fmt.Sprintf("for/%s/n=%d/in-a-template-included-from-a-loop", sk.name, n)
 					case 4, 5:
 						// the loop stands in a layout and its body is a block (form 5: inside an outer loop, with
 						// nothing but text next to the block); what looks at the loop's variables is the override
